@@ -46,6 +46,10 @@ theorem pulled_frame_C {a : Action} (h : stepC c s a = some s') : s'.pulled = s.
   case cGetT => obtain ⟨_, _, rfl⟩ := spec_cGetT.mp h; simp
   case cRel => obtain ⟨m, _, _, rfl⟩ := spec_cRel.mp h; cases m.pay <;> simp
   case cPop => obtain ⟨m, y, _, _, rfl⟩ := spec_cPop.mp h; simp
+  case cDeadIsSet => obtain ⟨_, rfl⟩ := spec_cDeadIsSet.mp h; split <;> simp
+  case cDeadMpIsSet => obtain ⟨_, rfl⟩ := spec_cDeadMpIsSet.mp h; split <;> simp
+  case cDeadSet => obtain ⟨_, rfl⟩ := spec_cDeadSet.mp h; simp
+  case cDeadMpSet => obtain ⟨_, rfl⟩ := spec_cDeadMpSet.mp h; simp
   case cShutSet => obtain ⟨_, rfl⟩ := spec_cShutSet.mp h; simp
   case cShutMpSet => obtain ⟨_, rfl⟩ := spec_cShutMpSet.mp h; simp
 
@@ -89,6 +93,9 @@ theorem silent_step (hq : Silent s) {a : Action} (h : step c s a = some s') :
     rcases hq with hq | ⟨hq, _⟩
     · simp [h1] at hq
     · cases m.pay <;> simp [Silent, hq, h1, Action.touchesSource, RPc.pastSource]
+  case rRet =>
+    obtain ⟨h1, rfl⟩ := spec_rRet.mp h
+    simp [Silent, h1, Action.touchesSource]
   all_goals first
     | exact ⟨keep (reader_frame_W h).1 (fun e => (reader_frame_W h).2 ▸ e), rfl, pulled_frame_W h,
         fun e => (reader_frame_W h).1 ▸ e⟩
